@@ -78,6 +78,9 @@ def declared_outputs(bld, backend):
 
 
 def do_action(pr, action):
+    if not os.path.isdir(pr.bld):
+        # killed before the build directory existed: every tool fails visibly there
+        return 1, 'no build directory'
     if action == FAULTY:
         flag = os.path.join(pr.src, 'FAIL.flag')
         open(flag, 'w').close()
